@@ -191,11 +191,28 @@ func init() {
 			}
 			full, red := newStats(), newStats()
 			exploreFrom(sc, nil, 1<<30, time.Now().Add(time.Duration(secs)*time.Second), full)
+			exploreDPOR(sc, time.Now().Add(time.Duration(secs)*time.Second), red)
 			if full.TimedOut {
-				fmt.Printf("%-60s full exploration does not finish in %d s (%d schedules): skipped\n", sc.Name, secs, full.Execs)
+				// one-sided: whatever the unfinished full exploration has seen must have been seen by the
+				// finished reduced one
+				if red.TimedOut {
+					fmt.Printf("%-60s neither exploration finishes in %d s: skipped\n", sc.Name, secs)
+					continue
+				}
+				missing := 0
+				for k := range full.Outcomes {
+					if _, ok := red.Outcomes[k]; !ok {
+						missing++
+					}
+				}
+				verdict := "contained"
+				if missing > 0 {
+					verdict = fmt.Sprintf("%d OUTCOMES MISSING IN THE REDUCED EXPLORATION", missing)
+					bad++
+				}
+				fmt.Printf("%-60s full (unfinished): %d schedules, %d outcomes; reduced: %d schedules + %d cut, %d outcomes: %s\n", sc.Name, full.Execs, len(full.Outcomes), red.Execs, red.SleepBlocked, len(red.Outcomes), verdict)
 				continue
 			}
-			exploreDPOR(sc, time.Now().Add(time.Duration(secs)*time.Second), red)
 			same := len(full.Outcomes) == len(red.Outcomes) && !red.TimedOut
 			for k := range full.Outcomes {
 				if _, ok := red.Outcomes[k]; !ok {
